@@ -67,6 +67,13 @@ NUStep(s, c) ==
                      ELSE [s EXCEPT !.out = @ \o <<cPCT, s.h, c>>, !.st = 0]
 NormUnreserved(raw) == NUFlush(FoldLeft(NUStep, [out |-> <<>>, st |-> 0, h |-> 0], raw))
 
+(* percent-triplets with upper-case hex digits ("%a1" and "%A1" are the same triplet, RFC 3986 6.2.2.1) *)
+PctUpper(raw) == LET r == FoldLeft(LAMBDA s, c : IF c = cPCT THEN [out |-> Append(s.out, c), k |-> 2]
+                                                 ELSE IF s.k > 0 THEN [out |-> Append(s.out, IF c \in 97..102 THEN c - 32 ELSE c), k |-> s.k - 1]
+                                                 ELSE [out |-> Append(s.out, c), k |-> 0],
+                                   [out |-> <<>>, k |-> 0], raw)
+                 IN  r.out
+
 (* RFC 3629 UTF-8 decoding: automaton over bytes.  need = continuation bytes still expected. *)
 UD0 == [out |-> <<>>, need |-> 0, cp |-> 0, bad |-> FALSE]
 UDStart(s, b) == IF b < 128 THEN [s EXCEPT !.out = Append(@, b)]
@@ -465,7 +472,10 @@ ParamVerdict(d, v, w, alsoDecoded) ==
                     IN  IF \E i \in 1..Len(want.items) : r[i].bad THEN want
                         ELSE [want EXCEPT !.items = [i \in 1..Len(want.items) |-> r[i].t]]
                ELSE want
+        \* ... and so is the case text appearing verbatim on the wire (the user wrote the percent-encoding himself)
+        verbatim == alsoDecoded /\ d.loc = "path" /\ v.k = "prim" /\ w.pmode = "pct" /\ PctUpper(w.seg) = PctUpper(want.items[1])
     IN  IF fr # "T" THEN [v |-> "U", why |-> fr]
+        ELSE IF verbatim THEN [v |-> "T", why |-> ""]
         ELSE IF d.style = "json" THEN (IF ContentOK(d, v, w) THEN [v |-> "T", why |-> ""] ELSE [v |-> "F", why |-> "json"])
         ELSE IF d.loc = "cookie" /\ CookieValue(w.cpresent, w.cookie).ok /\ CookieValue(w.cpresent, w.cookie).v # <<>>
                 /\ Head(CookieValue(w.cpresent, w.cookie).v) = cDQ THEN [v |-> "U", why |-> "quoted-cookie-value"]
